@@ -41,7 +41,9 @@ func init() {
 			"(user float64/int64/json.Number/1.0, -f and --set through cli/values.MergeValues, own defaults, parent's section, root's section, overriding pairs, key-wise split, merged object). " +
 			"Part C: .global.g constrained in a subchart x global arriving from user/root defaults/own defaults. Part E: part B's schemas x 11 placements with crds/ in the root, a subchart, a sibling subchart or both while the violated schema is in the root, " +
 			"a subchart (plain/conditional/aliased/disabled), a sub-subchart or both x 9 contents x {U, D} x {install, dry-run, template, upgrade}. Part F: two charts with the SAME name and version (declared or by alias) at different tree positions (cousins a/db+b/db, parent/child db+db/db, uncle/nephew, root/child) " +
-			"carrying DIFFERENT schemas: ordered schema pairs x content pairs x {U, D} x {install, dry-run, template, upgrade, lint}. Part D: part B's schemas x {root, sub, root with crds/} x 9 contents x {U, D} on the Secrets and " +
+			"carrying DIFFERENT schemas: ordered schema pairs x content pairs x {U, D} x {install, dry-run, template, upgrade, lint}. Part G: two-step histories: the previous revision stored the user's values under a chart without schema (or under this chart with the explicit skip option), " +
+			"then upgrade --reuse-values / --reset-then-reuse-values with NO values to the chart whose schema they violate: part B's schemas x {root, sub, leaf(, alias, root+sub)} x 9 contents x {U, D, U>D(, split, D<Ugood)}. " +
+			"Part D: part B's schemas x {root, sub, root with crds/} x 9 contents x {U, D} on the Secrets and " +
 			"ConfigMaps storage drivers (cluster-touching entries only). Every (schema, tree) pair x {install, install --dry-run, template, upgrade after a " +
 			"valid install, upgrade reusing stored values, lint} x skip-schema-validation off/on. distinct = (schema text, chart tree, layers, entry, skip) with a schema that constrains something",
 		Run:    run,
@@ -63,6 +65,7 @@ func init() {
 			"reject-route:U-int64", "reject-route:U-jnum", "reject-route:U-file", "reject-route:U-set", "reject-global",
 			"reject@install:crds-root/schema-sub", "reject@install:crds-root/schema-leaf", "reject@install:crds-sub/schema-root", "reject@install:crds-sibling/schema-sub",
 			"reject@install:crds-root+sub/schema-root+sub", "crds-installed-when-valid",
+			"reject@upgrade-reuse-flag", "reject@upgrade-reset-then-reuse", "reject@upgrade-reuse-flag-after-skip",
 			"reject:twins", "twins-discriminating-reject@install", "twins-discriminating-accept@install", "twins-discriminating-reject@upgrade", "twins-discriminating-accept@upgrade",
 			"twins-discriminating-reject@template", "twins-discriminating-accept@template", "twins-discriminating-reject@lint", "twins-discriminating-accept@lint",
 		},
@@ -129,7 +132,13 @@ func (cs Case) entryName() string {
 	return cs.Entry
 }
 
-var entriesAll = []string{"install", "install-dry", "template", "upgrade", "lint", "upgrade-reuse"}
+var entriesAll = []string{"install", "install-dry", "template", "upgrade", "lint", "upgrade-reuse",
+	// two-step histories (part G only): the previous revision stored the user's values, the upgrade passes none
+	"upgrade-reuse-flag", "upgrade-reset-then-reuse", "upgrade-reuse-flag-after-skip"}
+
+func historyEntry(en string) bool {
+	return en == "upgrade-reuse-flag" || en == "upgrade-reset-then-reuse" || en == "upgrade-reuse-flag-after-skip"
+}
 
 const schemaErrMark = "values don't meet the specifications of the schema"
 
@@ -355,6 +364,23 @@ func (e *env) runCase(cs Case) (o outcome) {
 				return o
 			}
 			op.Kind, op.Values = "upgrade", nil
+		case "upgrade-reuse-flag", "upgrade-reset-then-reuse", "upgrade-reuse-flag-after-skip":
+			// The stored values were acceptable when they were stored: the previous revision's chart had no
+			// schema (same tree, same defaults), or (-after-skip) it was this chart installed with the explicit
+			// skip option. The upgrade carries no values (hx.Exec hands Helm an empty map) and asks for
+			// --reuse-values / --reset-then-reuse-values; the final values are the stored ones over the defaults.
+			w = hx.NewWorld(cs.driver())
+			prev := hx.Op{Kind: "install", Release: "r", Chart: stripSchemas(cs.Chart), Values: copyMap(user)}
+			if cs.Entry == "upgrade-reuse-flag-after-skip" {
+				prev.Chart, prev.SkipSchemaValidation = cs.Chart, true
+			}
+			if r := w.Exec(prev, nil); r.Failed {
+				o.Findings = append(o.Findings, finding{Kind: "unexpected-error", Text: "preparing install: " + r.Err})
+				return o
+			}
+			op.Kind, op.Values = "upgrade", nil
+			op.ReuseValues = cs.Entry != "upgrade-reset-then-reuse"
+			op.ResetThenReuseValues = cs.Entry == "upgrade-reset-then-reuse"
 		default:
 			panic("entry " + cs.Entry)
 		}
@@ -603,6 +629,25 @@ func units(thorough bool) []unit {
 			out = append(out, unit{Part: "E", B: b, P: p, Trees: orderTrees(ts)})
 		}
 	}
+	// Part G: two-step histories with --reuse-values / --reset-then-reuse-values and no new values
+	gPlacements := []string{"root", "sub", "leaf"}
+	if thorough {
+		gPlacements = append(gPlacements, "sub-alias", "root+sub")
+	}
+	for _, b := range bodiesReduced(thorough) {
+		for _, pn := range gPlacements {
+			p := byName[pn]
+			var ts []vtree
+			for _, c := range reducedContents() {
+				for _, vt := range routes(c, len(p.Chain)-1, true) {
+					if vt.Route == "U" || vt.Route == "D" || vt.Route == "U>D" || (thorough && (vt.Route == "split" || vt.Route == "D<Ugood")) {
+						ts = append(ts, vt)
+					}
+				}
+			}
+			out = append(out, unit{Part: "G", B: b, P: p, Trees: orderTrees(ts)})
+		}
+	}
 	// Part D: the other storage drivers
 	dBodies := bodiesReduced(false)
 	if !thorough {
@@ -627,6 +672,8 @@ func entriesFor(part string, thorough bool, vt vtree) []string {
 	var out []string
 	for _, en := range entriesAll {
 		switch {
+		case historyEntry(en) != (part == "G"):
+			continue // part G runs the two-step histories and nothing else
 		case part == "E" && (en == "lint" || en == "upgrade-reuse"):
 			continue // part E is about what is sent before the rejection: install (real, dry, template) and upgrade
 		case part == "D" && (en == "lint" || en == "template" || en == "install-dry"):
@@ -666,7 +713,7 @@ func run(c *core.Ctx) {
 	c.Bound("contents-full", strconv.Itoa(len(contents(th))))
 	c.Bound("placements", strconv.Itoa(len(placements())))
 	c.Bound("crd-placements", strconv.Itoa(len(crdPlacements())))
-	c.Bound("pairs", fmt.Sprintf("A=%d B=%d C=%d D=%d E=%d", nPairs["A"], nPairs["B"], nPairs["C"], nPairs["D"], nPairs["E"]))
+	c.Bound("pairs", fmt.Sprintf("A=%d B=%d C=%d D=%d E=%d", nPairs["A"], nPairs["B"], nPairs["C"], nPairs["D"], nPairs["E"])+fmt.Sprintf(" G=%d", nPairs["G"]))
 	c.Bound("entries", strings.Join(entriesAll, ",")+" x skip{off,on}")
 	smoke := map[string]bool{bodiesReduced(false)[1].ID: true, bodiesReduced(false)[7].ID: true, bodiesReduced(false)[10].ID: true}
 	for _, u := range us {
